@@ -19,7 +19,9 @@ SNVS = [
     ("chr1", 12, REF["chr1"][12], None), ("chr1", 17, REF["chr1"][17], None), ("chr1", 22, REF["chr1"][22], None),
     ("chr1", 40, REF["chr1"][40], None), ("chr1", 44, REF["chr1"][44], None),
     ("chr2", 10, REF["chr2"][10], None), ("chr2", 14, REF["chr2"][14], None), ("chr2", 40, REF["chr2"][40], None),
-] + [("chr2", p, REF["chr2"][p], None) for p in (50, 51, 53, 54, 56, 57)] + [("chr2", p, REF["chr2"][p], None) for p in (28, 31)]
+] + [("chr2", p, REF["chr2"][p], None) for p in (50, 51, 53, 54, 56, 57)] + [("chr2", p, REF["chr2"][p], None) for p in (28, 31)] + [
+    # SNVs on the base just before and just after locus L2 (chr1:50-58): they belong to no locus, whatever coordinate convention a fetch uses
+    ("chr1", 49, REF["chr1"][49], None), ("chr1", 58, REF["chr1"][58], None)]
 
 
 def _alts(base, n):
